@@ -205,7 +205,7 @@ type Step struct {
 type Failure struct {
 	Kind  string `json:"kind"`
 	Cause string `json:"cause"`
-	Scope string `json:"scope"` // topic class of the subject concerned: service-health | config-entry | ""
+	Scope string `json:"scope"` // topic class of the subject concerned: service-health | service-health-connect | config-entry | ""
 	Step  int    `json:"step"`
 	C     int    `json:"c"`
 	Msg   string `json:"msg"`
